@@ -65,7 +65,8 @@ def place(rng, project, what, ns_forced=None):
         kind = "default-top"
     node = usage_node(rng, what)
     key = "zz_%s" % what
-    plain = {"k": "lit", "ty": "str", "v": "plain"}
+    # what the locales that do not use the family write instead: a string, or a bare number / boolean
+    plain = pick(rng, [{"k": "lit", "ty": "str", "v": "plain"}, {"k": "lit", "ty": "str", "v": "plain"}, {"k": "lit", "ty": "int", "v": 3}, {"k": "lit", "ty": "bool", "v": True}])
     if what != "plural" and rng.random() < 0.3:
         # one variable of one key carries two formatter families: in the same value, or one per locale
         what2 = pick(rng, [w for w in FMT_SEGS if FAMILY_OF[w] != FAMILY_OF[what]])
